@@ -37,7 +37,9 @@ Record ccase := {
   c_totals : Z * Z * Z;                     (* exported (swarms, seeders, leechers) at quiescence *)
   c_recount : Z * Z * Z;
   c_midflight_ok : bool;                    (* memory: counters = recount whenever no writer held a shard *)
-  c_steps_only : bool                       (* memory: judge every step; redis: only the final state of whole operations *)
+  c_steps_only : bool;                      (* memory: judge every step; redis: only the final state of whole operations *)
+  c_post : list sop;                        (* sequential operations run after quiescence (a late, complete expiry pass) *)
+  c_final2 : list (list Z * bool * bool * list Z * Z)    (* membership dump after them *)
 }.
 
 Definition mk_a ih v6 pid ip port lft ev nw : ann :=
@@ -104,12 +106,14 @@ Definition final_matches (st : spec) (keys : list (list Z * bool)) (entries : li
 (* depth-first search over the interleavings of the threads (program order kept), with the
    per-step choice "skip" for skippable expiry steps; fuel = total number of steps + 1 *)
 Fixpoint search (fuel : nat) (clock : Z) (keys : list (list Z * bool)) (entries : list entry)
+         (post : list sop) (entries2 : list entry)
          (st : spec) (threads : list (list cstep * tlocal)) : bool :=
   match fuel with
   | O => false
   | S f =>
     if forallb (fun t => match t.1 with [] => true | _ => false end) threads
-    then final_matches st keys entries
+    then final_matches st keys entries &&
+         final_matches (fold_left (sapply spec_if) post (st, clock)).1 keys entries2
     else
       (fix pick (before : list (list cstep * tlocal)) (rest : list (list cstep * tlocal)) : bool :=
          match rest with
@@ -120,7 +124,7 @@ Fixpoint search (fuel : nat) (clock : Z) (keys : list (list Z * bool)) (entries 
             | k :: more =>
               let try skip :=
                 match do_step clock st loc k skip with
-                | Some (st', loc') => search f clock keys entries st' (before ++ (more, loc') :: after)
+                | Some (st', loc') => search f clock keys entries post entries2 st' (before ++ (more, loc') :: after)
                 | None => false
                 end in
               try false || (match k with KGcOne _ _ _ true => try true | _ => false end)
@@ -152,7 +156,7 @@ Definition case_keys (c : ccase) : list (list Z * bool) :=
 Definition linearizable (c : ccase) : bool :=
   let st0 := run_spec (c_setup c) in
   let n := length (concat (c_threads c)) in
-  search (S n) (c_clock c) (case_keys c) (c_final c) st0 (map (fun t => (t, None)) (c_threads c)).
+  search (S n) (c_clock c) (case_keys c) (c_final c) (c_post c) (c_final2 c) st0 (map (fun t => (t, None)) (c_threads c)).
 
 Definition has_gc (c : ccase) : bool :=
   existsb (fun k => match k with KGcOne _ _ _ _ => true | _ => false end) (concat (c_threads c)).
